@@ -360,6 +360,8 @@ class World(EventDispatcher):
                                       ON_REMOVE_EVENT_NAME,
                                       component, entity, self)
 
+                # Handlers that do not listen to on_remove leave too
+                if hasattr(component, '__events__'):
                     self.remove_handler(component)
 
             del self._entities[entity]
@@ -411,8 +413,8 @@ class World(EventDispatcher):
                         getattr(removed,
                                 removed.__events__[ON_REMOVE_EVENT_NAME])(
                                     entity, self)
-                    # on_add exists but dispatching is disabled
-                    elif not self._dispatch_enabled:
+                    # on_remove exists but dispatching is disabled
+                    elif ON_REMOVE_EVENT_NAME in removed.__events__:
                         self.dispatch(ON_SINGLE_DISPATCH_EVENT_NAME,
                                       ON_REMOVE_EVENT_NAME,
                                       removed, entity, self)
@@ -507,8 +509,8 @@ class World(EventDispatcher):
                         and self._dispatch_enabled):
                     getattr(removed,
                             removed.__events__[ON_REMOVE_EVENT_NAME])()
-                # on_add exists but dispatching is disabled
-                elif not self._dispatch_enabled:
+                # on_remove exists but dispatching is disabled
+                elif ON_REMOVE_EVENT_NAME in removed.__events__:
                     self.dispatch(ON_SINGLE_DISPATCH_EVENT_NAME,
                                   ON_REMOVE_EVENT_NAME, removed)
 
